@@ -534,7 +534,12 @@ pub fn words_consistent(items: &[(Vec<u8>, Vec<u64>)], w: usize, split: bool) ->
                 return false;
             }
             match map.get(&key) {
-                Some(o) if *o != origins[i] => return false,
+                Some(o) if *o != origins[i] => {
+                    if std::env::var("VERIF_DEBUG").is_ok() {
+                        eprintln!("COLLISION word={} origins {:#x} vs {:#x} at window {i} of a sequence of length {}", String::from_utf8_lossy(&key), o, origins[i], seq.len());
+                    }
+                    return false;
+                }
                 Some(_) => {}
                 None => {
                     map.insert(key, origins[i]);
